@@ -1,0 +1,9 @@
+//go:build verif
+
+package repl
+
+// MultiLine exposes the REPL's "keep reading lines" classification to the verification
+// harness (build tag verif only).
+func MultiLine(err error) bool {
+	return multiLine(err)
+}
